@@ -73,6 +73,15 @@ violated instance.  Clause numbers refer to DESIGN.md section 5 "C10".
                                   wherever a segment's det() is added to a ring (add_segment_back, the constructor, a ring
                                   emplaced in a container) the same segment is not reversed afterwards, and a ring method
                                   that reverses its own segments negates the sum on every path
+  A2-reset-undoes-tentative-classification   every data member that the calls preceding ProtoRing::reset() (the tentative
+                                  classification in join_connected_rings) write through ProtoRing methods -- the set is
+                                  DERIVED from those writers (assignments, mutating calls on members, members of the own
+                                  segments written through a NodeRefSegment method); orientation methods are excepted, A1
+                                  keeps them consistent -- is put back to its initial state on every path through reset()
+  A3-extremum-tracker-consistent  a guarded replacement `V.front() = c` / `V.back() = c` is decided by a strict comparison
+                                  of c's key with the key of the element it replaces (same key function on both sides, any
+                                  operand order, named locals followed), and the smallest / largest slot (and insertion
+                                  at begin()) use opposite directions
  segments
   G5-segment-end-points-differ    a segment is stored in the segment vector only under guards that decide (for all
                                   coordinate values AND node ids, by SymExec) that the two end LOCATIONS differ -- the
@@ -1301,7 +1310,9 @@ def duplicate_pair_rule(M, R):
             continue
         key = '%s#%s-removes-exactly-the-two-equal-neighbours' % (fn.q, s_.label())
         ok, msg = bool(it_d), 'cannot see which iterator holds the result of adjacent_find'
-        for e in (erases if it_d else []):
+        if s_.algo == 'std::unique':
+            ok, msg = False, 'std::unique + erase keeps one element of every run of equal neighbours: duplicates must cancel in pairs (even-odd rule)'
+        for e in (erases if (it_d and ok) else []):
             args = [a for a in e.get('args', []) if a is not None]
             good = False
             if len(args) == 2:
@@ -1524,6 +1535,34 @@ def _sum_accumulators(M):
     return acc, sum_fields
 
 
+def _reverses_own_segments(M, f):
+    """ProtoRing method f (or a lambda it hands to an algorithm over this->segments) calls NodeRefSegment::reverse on the
+    ring's own segments."""
+    fb = M.fb
+    for g in [f] + fb.lambdas_in(f):
+        for r in calls_of(g, NRS + '::reverse'):
+            if g is f:
+                o = _origin(f, r['recv'])
+                if o is not None and o[0] == 'field' and f.is_this_member(o[2]['id']):
+                    return True
+            elif _lambda_over_own_field(M, f, g):
+                return True
+    return False
+
+
+def _lambda_over_own_field(M, f, g):
+    """Lambda g is passed by f to a std algorithm whose range starts at a member container of *this."""
+    fb = M.fb
+    for c in calls_of(f):
+        if c.get('q', '').startswith('std::') and any(fb.lambda_fn(f, f.nodes[x]) is g for a in c.get('args', []) if a is not None
+                                                      for x in f.subtree(a) if f.nodes[x].get('k') == 'lambda'):
+            a0 = c.get('args', [None])[0]
+            n0 = f.sn(a0) if a0 is not None else None
+            if n0 is not None and n0.get('recv') is not None and f.is_this_member(n0['recv']):
+                return c
+    return None
+
+
 def ring_sum_rules(M, R):
     """A1: ProtoRing's sum is the sum of det() of its segments IN THEIR CURRENT DIRECTION: a segment is not reversed after
     its det() was added, and a method that reverses the ring's own segments negates the sum."""
@@ -1581,22 +1620,7 @@ def ring_sum_rules(M, R):
     for f in M.fns:
         if f.cls != PR or f.is_lambda:
             continue
-        own_rev = False
-        for g in [f] + fb.lambdas_in(f):
-            for r in calls_of(g, NRS + '::reverse'):
-                if g is f:
-                    o = _origin(f, r['recv'])
-                    if o is not None and o[0] == 'field' and f.is_this_member(o[2]['id']):
-                        own_rev = True
-                else:
-                    # lambda applied by an algorithm to this->segments
-                    for c in calls_of(f):
-                        if c.get('q', '').startswith('std::') and any(fb.lambda_fn(f, f.nodes[x]) is g for a in c.get('args', []) if a is not None
-                                                                      for x in f.subtree(a) if f.nodes[x].get('k') == 'lambda'):
-                            a0 = c.get('args', [None])[0]
-                            n0 = f.sn(a0) if a0 is not None else None
-                            if n0 is not None and n0.get('recv') is not None and f.is_this_member(n0['recv']):
-                                own_rev = True
+        own_rev = _reverses_own_segments(M, f)
         if not own_rev:
             continue
         negs = [n['id'] for n in f.all_nodes() if n.get('k') == 'assign' and n.get('op') == '=' and (f.sn(n['lhs']) or {}).get('q') == sum_q and f.is_this_member(n['lhs'])
@@ -1604,6 +1628,259 @@ def ring_sum_rules(M, R):
         w = path_search(f, f.entry, lambda e: isinstance(e, tuple) and e[0] == 'exit', lambda e: e in negs or is_noreturn(f, e), from_block_start=True) if negs else ['-']
         R.check(w is None, 'A1-ring-sum-matches-segment-directions', '%s#reversing-the-own-segments-negates-the-sum' % f.q, f.site,
                 '%s reverses the segments of the ring but does not negate %s on every path' % (f.q, sum_q.rsplit('::', 1)[-1]))
+
+
+MUTATING = tuple(S.ORDER_BREAKING) + ('erase', 'clear', 'pop_back', 'pop_front')
+
+
+def _field_writes(M, m):
+    """{field qualified name: node} data members written by ProtoRing method m: assignments / mutating calls on members of
+    *this, and members of the ring's segments written through a NodeRefSegment method applied to the own segments."""
+    fb = M.fb
+    out = {}
+    for n in m.all_nodes():
+        if n.get('k') == 'assign' and m.is_this_member(n['lhs']):
+            out[m.sn(n['lhs'])['q']] = n
+        if n.get('k') == 'call' and n.get('recv') is not None and m.is_this_member(n['recv']) and 'q' in n and \
+                (n['q'].rsplit('::', 1)[-1] in MUTATING or n.get('op') == '='):
+            out[m.sn(n['recv'])['q']] = n
+    for g in [m] + fb.lambdas_in(m):
+        if g is not m and not _lambda_over_own_field(M, m, g):
+            continue
+        for c in calls_of(g):
+            if c.get('rcls') != NRS or c.get('recv') is None:
+                continue
+            if g is m:
+                o = _origin(m, c['recv'])
+                if not (o is not None and o[0] == 'field' and m.is_this_member(o[2]['id'])):
+                    continue
+            for h in callee_bodies(fb, c):
+                for x in h.all_nodes():
+                    if x.get('k') == 'assign' and h.is_this_member(x['lhs']):
+                        out[h.sn(x['lhs'])['q']] = (c if g is m else _lambda_over_own_field(M, m, g))
+    return out
+
+
+def reset_rules(M, R):
+    """A2: ProtoRing::reset() re-initialises every member that the calls preceding it (the tentative classification) write
+    through ProtoRing methods -- orientation (reverse) excepted, which A1 keeps consistent."""
+    fb = M.fb
+    resets = [f for f in fb.fns(PR + '::reset') if f.has_cfg]
+    if not resets:
+        R.broken('%s::reset not found' % PR)
+        return
+    rs = resets[0]
+    users = [(f, c) for (f, c) in M.idx.callers(rs) if f.q.startswith('osmium::area::') and live(f, c['id'])]
+    if not users:
+        R.broken('%s::reset has no caller in the fact base' % PR)
+        return
+    written = {}            # field -> (writer method, via function)
+    for (f, rc) in users:
+        seen = set()
+        work = [(f, c, 0) for c in calls_of(f) if c.get('u') and c['id'] != rc['id'] and live(f, c['id'])
+                and path_search(f, c['id'], lambda e, rc=rc: e == rc['id'], lambda e: False) is not None]
+        while work:
+            (h, c, d) = work.pop()
+            for g in callee_bodies(fb, c):
+                if id(g) in seen or not g.q.startswith('osmium::area::') or g.usr == rs.usr:
+                    continue
+                seen.add(id(g))
+                if g.cls == PR:
+                    if g.kind in ('ctor', 'dtor') or _reverses_own_segments(M, g):
+                        continue
+                    for fq in _field_writes(M, g):
+                        written.setdefault(fq, (g, f))
+                if d < 5:
+                    for gl in [g] + fb.lambdas_in(g):
+                        work.extend((gl, x, d + 1) for x in calls_of(gl) if x.get('u'))
+    if not written:
+        R.broken('A2: the calls preceding %s::reset write no member of the ring (unknown shape of the tentative classification)' % PR)
+        return
+    own = _field_writes(M, rs)
+
+    def value_of(host, n):
+        """What a write node establishes: ('const', v) | ('null',) | ('cleared',) | ('other', text)."""
+        if n.get('k') == 'assign':
+            if (host.sn(n['rhs']) or {}).get('null') or any(host.nodes[x].get('null') for x in host.subtree(n['rhs'])):
+                return ('null',)
+            v = host.const_value(n['rhs'])
+            return ('const', v) if v is not None else ('other', host.expr(n['rhs'])[:40])
+        if n.get('k') == 'call' and n.get('q', '').rsplit('::', 1)[-1] == 'clear':
+            return ('cleared',)
+        return ('other', host.expr(n['id'])[:40])
+
+    def default_of(fq):
+        cls = fq.rsplit('::', 1)[0]
+        for c in fb.fns(cls + '::(ctor)'):
+            for n in c.all_nodes():
+                if n.get('k') == 'init' and n.get('q') == fq and n.get('init') is not None:
+                    if any(c.nodes[x].get('null') for x in c.subtree(n['init'])):
+                        return ('null',)
+                    v = c.const_value(n['init'])
+                    if v is not None:
+                        return ('const', v)
+        return None
+
+    def established(fq):
+        """Value reset() gives the member (for members of the segments: by the NodeRefSegment method it applies)."""
+        for n in rs.all_nodes():
+            if n.get('k') == 'assign' and rs.is_this_member(n['lhs']) and rs.sn(n['lhs'])['q'] == fq:
+                return value_of(rs, n)
+            if n.get('k') == 'call' and n.get('recv') is not None and rs.is_this_member(n['recv']) and rs.sn(n['recv'])['q'] == fq and 'q' in n \
+                    and (n['q'].rsplit('::', 1)[-1] in MUTATING or n.get('op') == '='):
+                return value_of(rs, n)
+        for g in [rs] + fb.lambdas_in(rs):
+            for c in calls_of(g):
+                if c.get('rcls') == NRS:
+                    for h in callee_bodies(fb, c):
+                        for x in h.all_nodes():
+                            if x.get('k') == 'assign' and h.is_this_member(x['lhs']) and h.sn(x['lhs'])['q'] == fq:
+                                return value_of(h, x)
+        return None
+    for fq, (g, via) in sorted(written.items()):
+        key = '%s#re-initialises-%s' % (rs.q, fq)
+        n = own.get(fq)
+        ok, msg = n is not None, '%s is written by %s during the tentative classification in %s but %s() does not re-initialise it: the second ' \
+                                 'classification starts from stale links (e.g. the same inner ring attached twice)' % (fq, g.q, via.q, rs.q)
+        if ok:
+            nid = n['id']
+            loops = [l for l in rs.loops if rs.in_range(nid, l['b'], l['e'])]
+            hit = {nid}
+            if loops:           # a per-segment write inside a loop over the segments: reaching the loop is what counts
+                lo = max(loops, key=lambda l: l['e'] - l['b'])
+                hit = {e for b in rs.blocks.values() for e in b['elems'] if rs.in_range(e, lo['b'], lo['e'])}
+            w = path_search(rs, rs.entry, lambda e: isinstance(e, tuple) and e[0] == 'exit', lambda e: e in hit or is_noreturn(rs, e), from_block_start=True)
+            if w is not None:
+                ok, msg = False, '%s() re-initialises %s only on some paths: %s' % (rs.q, fq, describe_path(rs, w))
+            else:
+                got, want = established(fq), default_of(fq)
+                if got is None or got[0] == 'other' or (want is not None and got != want) or (want is None and got != ('cleared',)):
+                    ok, msg = False, '%s() sets %s to %s, not to its initial state %s' % (rs.q, fq, got, want or ('cleared',))
+        R.check(ok, 'A2-reset-undoes-tentative-classification', key, rs.loc(n['id']) if n is not None else rs.site, msg)
+
+
+def _resolve_local(fn, nid, keep):
+    """Follow named locals to their initialiser (not the variables in `keep`)."""
+    hops = 0
+    while hops < 10:
+        n = fn.sn(nid)
+        if n is None or n.get('k') != 'var' or n.get('vk') != 'local' or n.get('d') in keep:
+            return nid
+        ent = local_decl(fn, n['d'])
+        if ent is None or not isinstance(ent[1].get('init'), int):
+            return nid
+        nid = ent[1]['init']
+        hops += 1
+    return nid
+
+
+def extremum_rules(M, R):
+    """A3: a guarded replacement `V.front() = c` / `V.back() = c` compares c's key with the key of the element it replaces,
+    with the same key function, and the two slots use opposite directions (insertion at begin() agreeing with front())."""
+    fb = M.fb
+    n_inst = 0
+    for fn in M.fns:
+        if not fn.q.startswith(BA + '::') or fn.is_lambda:
+            continue
+        repl = []
+        for n in fn.all_nodes():
+            if n.get('k') == 'call' and n.get('op') == '=' and n.get('recv') is not None and live(fn, n['id']):
+                r = fn.sn(n['recv'])
+                a = fn.sn((n.get('args') or [None])[0]) if n.get('args') else None
+                if r is not None and r.get('k') == 'call' and r.get('q', '').rsplit('::', 1)[-1] in ('front', 'back') and r.get('recv') is not None \
+                        and a is not None and a.get('k') == 'var' and fn.root_var(r['recv']) is not None and fn.root_var(r['recv'])[0] == 'var':
+                    repl.append((n, r['q'].rsplit('::', 1)[-1], fn.root_var(r['recv']), a['d']))
+        if not repl:
+            continue
+        slots = {}
+
+        def elem_accessor(nid, V):
+            """'front' / 'back' / 'other' if the expression reads an element of container V, else None."""
+            for x in fn.subtree(nid):
+                c = fn.nodes[x]
+                if c.get('k') == 'call' and c.get('recv') is not None and fn.root_var(c['recv']) == V and (fn.sn(c['recv']) or {}).get('k') == 'var':
+                    nm = c.get('q', '').rsplit('::', 1)[-1]
+                    if nm in ('front', 'back'):
+                        return nm, x
+                    if nm in ('operator[]', 'at', 'begin', 'end', 'rbegin', 'cbegin'):
+                        return 'other', x
+            return None
+
+        def same_key(x, y, cd, ex, ey):
+            """Structural equality of two key expressions where `var c` on one side stands for the element on the other."""
+            x, y = _resolve_local(fn, x, {cd}), _resolve_local(fn, y, {cd})
+            a, b = fn.sn(x), fn.sn(y)
+            if a is None or b is None:
+                return False
+            if (a.get('k') == 'var' and a.get('d') == cd) or a.get('id') == ex:
+                return (b.get('k') == 'var' and b.get('d') == cd) or b.get('id') == ey
+            if a.get('k') != b.get('k') or a.get('op') != b.get('op') or a.get('q') != b.get('q') or a.get('name') != b.get('name'):
+                return False
+            ca, cb = [c for c in fn.children(a['id'])], [c for c in fn.children(b['id'])]
+            if a.get('k') == 'call' and 'recv' not in a:
+                ca, cb = [c for c in a.get('args', []) if c is not None], [c for c in b.get('args', []) if c is not None]
+            return len(ca) == len(cb) and all(same_key(p, q, cd, ex, ey) for p, q in zip(ca, cb))
+
+        def comparisons(node_id, V, cd):
+            """[(accessor, direction of `key(c) ? key(element)` that must hold, same key?)] from the guards of node_id."""
+            out = []
+            for (c, sense, _b) in guards_of(fn, node_id):
+                cn = fn.sn(c)
+                if cn is None or cn.get('k') != 'binop' or cn['op'] not in ('<', '>', '<=', '>='):
+                    continue
+                l, r = _resolve_local(fn, cn['lhs'], {cd}), _resolve_local(fn, cn['rhs'], {cd})
+                mentions_c = lambda z: any(fn.nodes[x].get('k') == 'var' and fn.nodes[x].get('d') == cd for x in fn.subtree(z))
+                el, er = elem_accessor(l, V), elem_accessor(r, V)
+                if mentions_c(l) and er is not None and el is None:
+                    op, acc, ex = cn['op'], er, (l, r)
+                elif mentions_c(r) and el is not None and er is None:
+                    op, acc, ex = {'<': '>', '>': '<', '<=': '>=', '>=': '<='}[cn['op']], el, (r, l)
+                else:
+                    continue
+                if not sense:
+                    op = {'<': '>=', '>': '<=', '<=': '>', '>=': '<'}[op]
+                out.append((acc[0], op, same_key(ex[0], ex[1], cd, None, acc[1]), sense, c))
+            return out
+        for (n, slot, V, cd) in repl:
+            n_inst += 1
+            key = '%s#replacement-of-%s()-compares-with-the-replaced-element' % (fn.q, slot)
+            cmps = [x for x in comparisons(n['id'], V, cd) if x[3]]          # the tests that must be TRUE for the replacement
+            if not cmps:
+                R.broken('%s: the replacement `%s` is not guarded by a comparison of its value with an element of the container '
+                         '(unknown shape of the extremum tracker)' % (key, fn.expr(n['id'])[:50]))
+                continue
+            wrong = [x for x in cmps if x[0] != slot]
+            nokey = [x for x in cmps if not x[2]]
+            strict = [x for x in cmps if x[0] == slot and x[1] in ('<', '>')]
+            ok, msg = True, ''
+            if wrong:
+                ok, msg = False, '`%s` replaces %s() but is decided by a comparison with %s(): `%s`' % (fn.expr(n['id'])[:40], slot, wrong[0][0], fn.expr(wrong[0][4])[:70])
+            elif nokey:
+                ok, msg = False, 'the two sides of `%s` do not apply the same key to the new value and to the element' % fn.expr(nokey[0][4])[:70]
+            elif not strict:
+                ok, msg = False, 'the replacement of %s() is not guarded by a strict ordering test' % slot
+            R.check(ok, 'A3-extremum-tracker-consistent', key, fn.loc(n['id']), msg)
+            if ok:
+                slots.setdefault(slot, set()).add(strict[0][1])
+        # insertion at the beginning must agree with front()
+        for n in fn.all_nodes():
+            if n.get('k') == 'call' and n.get('q', '').rsplit('::', 1)[-1] == 'insert' and n.get('recv') is not None and live(fn, n['id']):
+                V = fn.root_var(n['recv'])
+                args = [a for a in n.get('args', []) if a is not None]
+                if len(args) == 2 and any(fn.nodes[x].get('q', '').rsplit('::', 1)[-1] in ('begin', 'cbegin') for x in fn.subtree(args[0])) \
+                        and (fn.sn(args[1]) or {}).get('k') == 'var' and any(r[2] == V for r in repl):
+                    for x in comparisons(n['id'], V, fn.sn(args[1])['d']):
+                        if x[3] and x[1] in ('<', '>'):
+                            slots.setdefault('front', set()).add(x[1])
+        if 'front' in slots or 'back' in slots:
+            key = '%s#smallest-and-largest-slot-use-opposite-directions' % fn.q
+            f_, b_ = slots.get('front', set()), slots.get('back', set())
+            ok = len(f_) <= 1 and len(b_) <= 1 and (not f_ or not b_ or f_ != b_)
+            R.check(ok, 'A3-extremum-tracker-consistent', key, fn.site,
+                    'front() is replaced / inserted before when the new key is %s, back() when it is %s: the two extremum slots must use '
+                    'opposite directions' % (sorted(f_), sorted(b_)))
+    if n_inst == 0:
+        R.broken('A3: no guarded replacement of front()/back() found in %s (unknown shape of the candidate tracker)' % BA)
 
 
 def end_points_rule(M, R, G):
@@ -1673,6 +1950,8 @@ def all_rules(fb, R):
     duplicate_pair_rule(M, R)
     limit_rule(M, R)
     ring_sum_rules(M, R)
+    reset_rules(M, R)
+    extremum_rules(M, R)
     try:
         G = Geo(fb)
         normal_form_rule(M, R, G)
@@ -1710,6 +1989,8 @@ def run(ctx):
     R.expect('P4-valid-input-within-limits-is-assembled', 1)
     R.expect('A1-ring-sum-matches-segment-directions', 6)
     R.expect('G5-segment-end-points-differ', 2)
+    R.expect('A2-reset-undoes-tentative-classification', 3)
+    R.expect('A3-extremum-tracker-consistent', 3)
 
 
 # ====================================================================================================== positive self-test
@@ -1741,4 +2022,5 @@ SELFTESTS = [(rule, 'c10_assembler.cpp', _selftest_all) for rule in (
     'S4-nearest-ring-chosen', 'G1-segment-normal-form', 'G2-segment-order-primary-key', 'G3-sweep-prefilter-sound',
     'G4-ray-crossing-interval', 'R1-rings-added-only-after-success', 'R2-create-area-result', 'R3-commit-only-on-success',
     'R4-ring-roles-in-output', 'D1-duplicates-cancel-in-pairs', 'P4-valid-input-within-limits-is-assembled',
-    'A1-ring-sum-matches-segment-directions', 'G5-segment-end-points-differ')]
+    'A1-ring-sum-matches-segment-directions', 'G5-segment-end-points-differ', 'A2-reset-undoes-tentative-classification',
+    'A3-extremum-tracker-consistent')]
